@@ -7,8 +7,8 @@ namespace Walrus
 theorem opCleanB_sound (o : Op) (h : opCleanB o = true) : opClean o := by
   simp only [opCleanB, Bool.and_eq_true, Bool.or_eq_true, Bool.not_eq_true', decide_eq_true_eq,
     List.isEmpty_iff, List.all_eq_true] at h
-  obtain ⟨h1, h2⟩ := h
-  constructor
+  obtain ⟨⟨h1, h2⟩, h3⟩ := h
+  refine ⟨?_, ?_, ?_⟩
   · intro hn
     rcases h1 with h1 | h1
     · simp only [Bool.or_eq_false_iff, decide_eq_false_iff_not] at h1
@@ -24,6 +24,9 @@ theorem opCleanB_sound (o : Op) (h : opCleanB o = true) : opClean o := by
       · exact Or.inl h2
       · exact Or.inr (Or.inl h2)
       · exact Or.inr (Or.inr h2)
+  · intro sp n hm
+    have := h3 _ hm
+    simpa using this
 
 mutual
 theorem wfB_I : (i : PI) → i.wfB = true → i.WF
